@@ -87,7 +87,14 @@ func (e *Engine) prepareGoalMode2(hyp, goal *Term, dropQ bool, strict bool) []*T
 		for _, t := range insts {
 			seen[t] = true
 		}
-		var cands, cands2 []*Term
+		var cands, cands2, candsA []*Term
+		addArg := func(t *Term) {
+			if t == nil || t.Sort != Int || t.IsConst() || seen[t] || t.HasBound() {
+				return
+			}
+			seen[t] = true
+			candsA = append(candsA, t)
+		}
 		addTo := func(t *Term, primary bool) {
 			if t == nil || t.Sort != Int || t.IsConst() || seen[t] || t.HasBound() {
 				return
@@ -113,7 +120,12 @@ func (e *Engine) prepareGoalMode2(hyp, goal *Term, dropQ bool, strict bool) []*T
 				addTo(idx, true) // what the goal reads arrays at: most relevant
 				if idx.Op == "+" || idx.Op == "-" {
 					for _, a := range idx.Args {
-						add(a)
+						addArg(a)
+						// a wrapped successor ite(.., i+1-2^64, ite(.., .., i+1)): also i,
+						// so that a hypothesis about element k+1 can be used at k = i
+						if a.Op == "ite" || a.Op == "+" || a.Op == "-" {
+							indexLeaves(a, addArg, add, 0)
+						}
 					}
 				}
 			case "app":
@@ -137,7 +149,12 @@ func (e *Engine) prepareGoalMode2(hyp, goal *Term, dropQ bool, strict bool) []*T
 		if len(cands2) > 5 {
 			cands2 = cands2[:5]
 		}
+		sort.SliceStable(candsA, func(i, j int) bool { return Size(candsA[i]) < Size(candsA[j]) })
+		if len(candsA) > 6 {
+			candsA = candsA[:6]
+		}
 		insts = append(insts, cands...)
+		insts = append(insts, candsA...)
 		insts = append(insts, cands2...)
 	}
 	base := len(sks) * 3
@@ -335,6 +352,29 @@ func (e *Engine) prepareGoalMode2(hyp, goal *Term, dropQ bool, strict bool) []*T
 }
 
 // varBase strips the uniquifying suffixes from a bound-variable name ("k?14!2" -> "k").
+// indexLeaves adds the integer symbols an index expression is built from.
+func indexLeaves(t *Term, addArg, add func(*Term), depth int) {
+	if depth > 6 || t.Sort != Int {
+		return
+	}
+	if len(t.Args) == 0 {
+		add(t)
+		return
+	}
+	switch t.Op {
+	case "ite":
+		if depth > 0 {
+			addArg(t)
+		}
+		indexLeaves(t.Args[1], addArg, add, depth+1)
+		indexLeaves(t.Args[2], addArg, add, depth+1)
+	case "+", "-":
+		for _, a := range t.Args {
+			indexLeaves(a, addArg, add, depth+1)
+		}
+	}
+}
+
 func varBase(n string) string {
 	for i := 0; i < len(n); i++ {
 		if n[i] == '?' || n[i] == '!' {
